@@ -27,3 +27,20 @@ pub fn finite_f64<I: Inp>(i: &mut I) -> f64 {
     vassume!(i, x.is_finite());
     x
 }
+
+/// a and b within k units in the last place of each other (same sign), or numerically equal, or both NaN.
+/// Pure integer comparison of the bit patterns: no floating-point arithmetic for the solver to blast.
+pub fn ulp_close(a: f64, b: f64, k: u64) -> bool {
+    if a.is_nan() || b.is_nan() {
+        return a.is_nan() && b.is_nan();
+    }
+    if a == b {
+        return true;
+    }
+    if a.is_sign_negative() != b.is_sign_negative() {
+        // opposite signs: only the two smallest magnitudes around zero can be within k ulp
+        return (a.to_bits() & !(1u64 << 63)) + (b.to_bits() & !(1u64 << 63)) <= k;
+    }
+    let (x, y) = (a.to_bits(), b.to_bits());
+    (if x > y { x - y } else { y - x }) <= k
+}
